@@ -4,7 +4,20 @@ Everything below is decided on the `ast` of the *current* $VERIF_REPO source on 
 syntactic paths of each function, loops by a fixed point of the abstract state at the loop head (exact for the
 finite-state automata used here), helpers (`_write_or_rollback`, `_study_is_immutable`, ...) by inlining their real body.
 
-Layer 1 -- one run of the transaction automaton per `SQLDataStore` method (all methods except `__init__`):
+Layer 0 -- the precondition of layer 1, checked instead of assumed:
+
+  C05.engine.transactional    no `create_engine(..)` / `execution_options(..)` / session factory / `X.isolation_level = ..`
+                              site on a constructor path of the datastore (all non-test modules of vizier/_src/service and
+                              every non-test module that builds an engine or a SQLDataStore) selects autocommit
+                              (isolation_level='AUTOCOMMIT', execution_options isolation_level, autocommit=True,
+                              future=False, sqlite3 isolation_level=None / autocommit=True through connect_args, creator
+                              or attribute stores).  Constant arguments decide; a non-constant one is undecided;
+                              **kwargs / non-literal dicts / engines passed in from outside are printed assumptions.
+                              A violation is replayed with the kill-and-reopen driver on DeleteStudy / UpdateMetadata.
+  C05.engine.single_connection  `self._connection` is bound once, in `__init__`, to `<engine>.connect()` and no other
+                              method opens or uses another connection of `self._engine` (otherwise undecided).
+
+Layer 1 -- one run of the transaction automaton per `SQLDataStore` method (all methods except `__init__`), under layer 0:
 
   C05.<method>.bracket        public method: every exit (return or exception) is reached with no pending write
                               (each write is followed by a commit, or by a rollback before an exceptional exit), no
@@ -742,15 +755,340 @@ def confirm_sql_dynamic(method, tag, o):
 
 
 def confirm_rpc_crash(rpc):
-    doc, msg = wait_driver(run_driver(['crash-enum', '--rpc', rpc], 'enum_%s.json' % rpc, 900))
+    """`rpc` may be a comma separated list; the first diverging crash point of any of them is the reproduction."""
+    doc, msg = wait_driver(run_driver(['crash-enum', '--rpc', rpc, '--points', 'between'], 'enum_%s.json' % rpc.replace(',', '_'), 900))
     if doc is None:
         return None, {'driver_error': msg}
-    info = doc['rpcs'].get(rpc, {})
-    bad = [p for p in info.get('points', []) if p.get('problems')]
-    if bad:
-        return True, {'driver': '%s %s crash-enum --rpc %s' % (VENV_PY, DRIVER, rpc), 'crash_point': bad[0]['point'], 'k': bad[0]['k'],
-                      'problems_after_restart': bad[0]['problems'], 'diverging_points': len(bad), 'crash_points': info.get('crash_points')}
-    return None, {'driver': 'crash-enum --rpc %s' % rpc, 'note': 'no crash point diverged on the prepared history', 'info': info.get('error')}
+    errors = {}
+    for r in rpc.split(','):
+        info = doc['rpcs'].get(r, {})
+        if info.get('error'):
+            errors[r] = info['error']
+        bad = [p for p in info.get('points', []) if p.get('problems')]
+        if bad:
+            return True, {'driver': '%s %s crash-enum --rpc %s' % (VENV_PY, DRIVER, r), 'rpc': r, 'crash_point': bad[0]['point'], 'k': bad[0]['k'],
+                          'problems_after_restart': bad[0]['problems'], 'diverging_points': len(bad), 'crash_points': info.get('crash_points'),
+                          'all_diverging_points': [(p['k'], p['point']) for p in bad][:20]}
+    return None, {'driver': 'crash-enum --rpc %s --points between' % rpc, 'info': errors or None,
+                  'note': 'no crash point (after each write statement / commit, and after the acknowledged return) diverged on the prepared history. '
+                          'For an autocommit request this can mean it is masked at run time: with StaticPool one DBAPI connection is shared and its '
+                          'isolation level is reset when another Connection (e.g. the one of create_all) is returned to the pool'}
+
+
+# =========================================================================================== engine configuration
+# The bracket obligations prove "the statements between two commits are all-or-nothing" *provided* the statements
+# executed on `self._connection` between two commit()/rollback() calls form ONE database transaction.  That is a
+# property of how the engine / connection is configured; it is decided here on the real AST of every constructor
+# path (C05.engine.transactional, C05.engine.single_connection) instead of being assumed.
+ENGINE_FACTORIES = ('create_engine', 'create_async_engine')
+SESSION_FACTORIES = ('sessionmaker', 'Session', 'scoped_session', 'async_sessionmaker')
+
+
+def _scope_modules():
+    """Non-test modules under vizier/_src/service plus every non-test repo module that builds an engine or a SQLDataStore."""
+    root = os.path.join(source.REPO, 'vizier')
+    out = []
+    for dp, dn, fn in os.walk(root):
+        dn[:] = sorted(d for d in dn if d != '__pycache__')
+        for f in sorted(fn):
+            if not f.endswith('.py') or f.endswith('_test.py') or f.startswith('test_'):
+                continue
+            full = os.path.join(dp, f)
+            rel = os.path.relpath(full, source.REPO)
+            in_service = rel.startswith(os.path.join('vizier', '_src', 'service') + os.sep)
+            if not in_service:
+                try:
+                    txt = open(full, encoding='utf-8', errors='replace').read()
+                except OSError:
+                    continue
+                if not any(k in txt for k in ('create_engine', SQL_CLASS + '(', 'sessionmaker', 'engine_from_config')):
+                    continue
+            out.append(source.file_to_dotted(rel))
+    return out
+
+
+def _full_name(mod, func):
+    """Dotted name of a callee through the module's import table: `sqla.create_engine` -> 'sqlalchemy.create_engine'."""
+    try:
+        text = ast.unparse(func)
+    except Exception:
+        return None
+    if '(' in text or '[' in text:
+        return None
+    parts = text.split('.')
+    if parts[0] in mod.imports:
+        return '.'.join([mod.imports[parts[0]]] + parts[1:])
+    return None
+
+
+def _owner_map(tree):
+    """id(node) -> innermost enclosing function definition."""
+    owner = {}
+
+    def visit(node, fn):
+        for ch in ast.iter_child_nodes(node):
+            owner[id(ch)] = fn
+            visit(ch, ch if isinstance(ch, (ast.FunctionDef, ast.AsyncFunctionDef)) else fn)
+    visit(tree, None)
+    return owner
+
+
+class EngineScan:
+    def __init__(self):
+        self.violations, self.undecided, self.assumptions, self.sites = [], [], [], []
+
+    def _where(self, mod, node):
+        return '%s:%d' % (os.path.relpath(mod.path, source.REPO), node.lineno)
+
+    @staticmethod
+    def _assigned_values(name, fn, mod):
+        for sc in ([fn] if fn is not None else []) + [None]:
+            vals = []
+            nodes = ast.walk(sc) if sc is not None else mod.tree.body
+            for n in nodes:
+                if isinstance(n, ast.Assign) and any(isinstance(t, ast.Name) and t.id == name for t in n.targets):
+                    vals.append(n.value)
+                elif isinstance(n, ast.AnnAssign) and isinstance(n.target, ast.Name) and n.target.id == name and n.value is not None:
+                    vals.append(n.value)
+                elif isinstance(n, ast.AugAssign) and isinstance(n.target, ast.Name) and n.target.id == name:
+                    vals.append(None)
+            if vals:
+                return vals
+        return []
+
+    def _resolve(self, node, fn, mod, depth=0):
+        """Constant value of an expression: a literal, or a local/module name with exactly one literal assignment."""
+        if isinstance(node, ast.Constant):
+            return True, node.value
+        if isinstance(node, ast.Name) and depth < 4:
+            vals = self._assigned_values(node.id, fn, mod)
+            if len(vals) == 1 and vals[0] is not None:
+                return self._resolve(vals[0], fn, mod, depth + 1)
+        return False, None
+
+    def _resolve_dict(self, node, fn, mod):
+        if isinstance(node, ast.Dict):
+            return node
+        if isinstance(node, ast.Call) and isinstance(node.func, ast.Name) and node.func.id == 'dict' and not node.args:
+            return ast.Dict(keys=[ast.Constant(k.arg) if k.arg else None for k in node.keywords], values=[k.value for k in node.keywords])
+        if isinstance(node, ast.Name):
+            vals = self._assigned_values(node.id, fn, mod)
+            scope = fn if fn is not None else mod.tree
+            muts = [n for n in ast.walk(scope) if isinstance(n, (ast.Subscript, ast.Attribute)) and isinstance(n.value, ast.Name)
+                    and n.value.id == node.id and (isinstance(n.ctx, ast.Store) or (isinstance(n, ast.Attribute) and n.attr in ('update', 'setdefault', 'pop')))]
+            if len(vals) == 1 and vals[0] is not None and not muts:
+                return self._resolve_dict(vals[0], fn, mod)
+        return None
+
+    def _isolation(self, node, fn, mod, what, dbapi):
+        """dbapi=True for a sqlite3-level isolation_level (None == autocommit mode)."""
+        ok, v = self._resolve(node, fn, mod)
+        where = self._where(mod, node)
+        if not ok:
+            self.undecided.append('%s: %s is not a constant (%s)' % (where, what, paths._short(node, 50)))
+        elif isinstance(v, str) and v.replace('_', '').replace(' ', '').upper() == 'AUTOCOMMIT':
+            self.violations.append('%s: %s = %r selects autocommit: every statement is durable on its own and commit()/rollback() do nothing'
+                                   % (where, what, v))
+        elif dbapi and v is None:
+            self.violations.append('%s: %s = None puts the sqlite3 connection in autocommit mode (no implicit BEGIN)' % (where, what))
+
+    def _flag(self, node, fn, mod, what, bad_value):
+        ok, v = self._resolve(node, fn, mod)
+        where = self._where(mod, node)
+        if not ok:
+            self.undecided.append('%s: %s is not a constant (%s)' % (where, what, paths._short(node, 50)))
+        elif isinstance(v, (bool, int)) and bool(v) is bad_value:
+            self.violations.append('%s: %s = %r selects autocommit / legacy non-transactional execution' % (where, what, v))
+
+    def _dict_arg(self, node, fn, mod, what, dbapi):
+        d = self._resolve_dict(node, fn, mod)
+        where = self._where(mod, node)
+        if d is None:
+            self.assumptions.append('%s: %s (%s) is not a literal dict: assumed not to select autocommit' % (where, what, paths._short(node, 40)))
+            return
+        for k, v in zip(d.keys, d.values):
+            if k is None:
+                self.assumptions.append('%s: %s merges another mapping (**): assumed not to select autocommit' % (where, what))
+                continue
+            okk, kv = self._resolve(k, fn, mod)
+            if not okk:
+                self.assumptions.append('%s: %s has a non-constant key: assumed not to be an isolation option' % (where, what))
+            elif kv == 'isolation_level':
+                self._isolation(v, fn, mod, "%s['isolation_level']" % what, dbapi)
+            elif kv == 'autocommit':
+                self._flag(v, fn, mod, "%s['autocommit']" % what, True)
+
+    def _creator(self, node, fn, mod, where):
+        body = None
+        if isinstance(node, ast.Lambda):
+            body = node.body
+        elif isinstance(node, ast.Name):
+            cands = [n for n in ast.walk(mod.tree) if isinstance(n, ast.FunctionDef) and n.name == node.id]
+            body = cands[0] if len(cands) == 1 else None
+        if body is None:
+            self.assumptions.append('%s: creator=%s not resolvable: assumed to return a transactional DBAPI connection' % (where, paths._short(node, 40)))
+            return
+        inner = body if isinstance(body, ast.FunctionDef) else fn
+        for n in ast.walk(body):
+            if isinstance(n, ast.Call):
+                for kw in n.keywords:
+                    if kw.arg == 'isolation_level':
+                        self._isolation(kw.value, inner, mod, 'creator: connect(isolation_level)', True)
+                    elif kw.arg == 'autocommit':
+                        self._flag(kw.value, inner, mod, 'creator: connect(autocommit)', True)
+
+    def _engine_factory(self, n, fn, mod, last, where):
+        for kw in n.keywords:
+            if kw.arg is None:
+                self.assumptions.append('%s: **%s flows into %s: assumed to carry no autocommit option' % (where, paths._short(kw.value, 30), last))
+            elif kw.arg == 'isolation_level':
+                self._isolation(kw.value, fn, mod, '%s(isolation_level)' % last, False)
+            elif kw.arg == 'execution_options':
+                self._dict_arg(kw.value, fn, mod, '%s(execution_options)' % last, False)
+            elif kw.arg == 'connect_args':
+                self._dict_arg(kw.value, fn, mod, '%s(connect_args)' % last, True)
+            elif kw.arg == 'autocommit':
+                self._flag(kw.value, fn, mod, '%s(autocommit)' % last, True)
+            elif kw.arg == 'future':
+                self._flag(kw.value, fn, mod, '%s(future) [False = SQLAlchemy 1.x legacy autocommit of DML]' % last, False)
+            elif kw.arg == 'creator':
+                self._creator(kw.value, fn, mod, where)
+        for a in n.args:
+            if isinstance(a, ast.Starred):
+                self.assumptions.append('%s: *%s flows into %s: assumed to carry no autocommit option' % (where, paths._short(a.value, 30), last))
+
+    def scan(self):
+        n_engine_sites = 0
+        for dotted in _scope_modules():
+            try:
+                mod = source.ModuleInfo.get(dotted)
+            except (FileNotFoundError, SyntaxError, UnicodeDecodeError) as e:
+                self.undecided.append('%s: cannot be parsed (%r)' % (dotted, e))
+                continue
+            owner = _owner_map(mod.tree)
+            for n in ast.walk(mod.tree):
+                fn = owner.get(id(n))
+                if isinstance(n, ast.Call):
+                    full = _full_name(mod, n.func) or ''
+                    last = paths.last_name(n.func)
+                    where = self._where(mod, n)
+                    is_sqla = full.split('.')[0] == 'sqlalchemy'
+                    if is_sqla and last in ENGINE_FACTORIES:
+                        n_engine_sites += 1
+                        self.sites.append('%s %s(...)' % (where, paths._short(n.func, 40)))
+                        self._engine_factory(n, fn, mod, last, where)
+                    elif is_sqla and last == 'engine_from_config':
+                        n_engine_sites += 1
+                        self.sites.append('%s engine_from_config(...)' % where)
+                        self.assumptions.append('%s: engine_from_config(...): the configuration mapping is assumed to carry no autocommit option' % where)
+                    elif is_sqla and last in SESSION_FACTORIES:
+                        self.sites.append('%s %s(...)' % (where, last))
+                        for kw in n.keywords:
+                            if kw.arg == 'autocommit':
+                                self._flag(kw.value, fn, mod, '%s(autocommit)' % last, True)
+                            elif kw.arg is None:
+                                self.assumptions.append('%s: **%s flows into %s: assumed to carry no autocommit option' % (where, paths._short(kw.value, 30), last))
+                    elif isinstance(n.func, ast.Attribute) and n.func.attr == 'execution_options':
+                        self.sites.append('%s %s(...)' % (where, paths._short(n.func, 50)))
+                        for kw in n.keywords:
+                            if kw.arg == 'isolation_level':
+                                self._isolation(kw.value, fn, mod, 'execution_options(isolation_level)', False)
+                            elif kw.arg == 'autocommit':
+                                self._flag(kw.value, fn, mod, 'execution_options(autocommit)', True)
+                            elif kw.arg is None:
+                                self.assumptions.append('%s: **%s flows into execution_options: assumed to carry no autocommit option'
+                                                        % (where, paths._short(kw.value, 30)))
+                    elif last == SQL_CLASS and (full.endswith('.' + SQL_CLASS) or (isinstance(n.func, ast.Name) and n.func.id in mod.classes)):
+                        arg = n.args[0] if n.args else next((k.value for k in n.keywords if k.arg == 'engine'), None)
+                        src_ok = False
+                        if isinstance(arg, ast.Call) and paths.last_name(arg.func) in ENGINE_FACTORIES:
+                            src_ok = True
+                        elif isinstance(arg, ast.Name):
+                            vals = self._assigned_values(arg.id, fn, mod) if fn is not None else []
+                            src_ok = bool(vals) and all(isinstance(v, ast.Call) and paths.last_name(v.func) in ENGINE_FACTORIES for v in vals)
+                        self.sites.append('%s %s(%s)' % (where, SQL_CLASS, paths._short(arg, 30) if arg is not None else ''))
+                        if not src_ok:
+                            self.assumptions.append('%s: the engine handed to %s is not built in this function: assumed transactional' % (where, SQL_CLASS))
+                elif isinstance(n, (ast.Assign, ast.AnnAssign, ast.AugAssign)):
+                    targets = n.targets if isinstance(n, ast.Assign) else [n.target]
+                    for t in targets:
+                        if isinstance(t, ast.Attribute) and t.attr in ('isolation_level', 'autocommit') and n.value is not None:
+                            self.sites.append('%s %s = ...' % (self._where(mod, n), paths._short(t, 50)))
+                            if t.attr == 'isolation_level':
+                                self._isolation(n.value, fn, mod, paths._short(t, 50), True)
+                            else:
+                                self._flag(n.value, fn, mod, paths._short(t, 50), True)
+        return n_engine_sites
+
+
+def connection_scan(sql_cls):
+    """`self._connection` is bound once, in __init__, to `<engine>.connect()`; no method opens another connection."""
+    und, sites = [], []
+    for mname, fn in sql_cls.methods.items():
+        if not isinstance(fn, ast.FunctionDef):
+            continue
+        for n in ast.walk(fn):
+            if isinstance(n, (ast.Assign, ast.AnnAssign)):
+                targets = n.targets if isinstance(n, ast.Assign) else [n.target]
+                for t in targets:
+                    if is_self_attr(t, '_connection') and n.value is not None:
+                        v = n.value
+                        sites.append('%s line %d: self._connection = %s' % (mname, n.lineno, paths._short(v, 60)))
+                        # `<expr>.connect()` optionally followed by `.execution_options(..)` (whose arguments the engine scan judges)
+                        while isinstance(v, ast.Call) and isinstance(v.func, ast.Attribute) and v.func.attr == 'execution_options':
+                            v = v.func.value
+                        good = isinstance(v, ast.Call) and isinstance(v.func, ast.Attribute) and v.func.attr == 'connect' and not v.args and not v.keywords
+                        if not good:
+                            und.append('%s line %d: self._connection obtained by an unmodelled expression %s' % (mname, n.lineno, paths._short(n.value, 60)))
+                        elif mname != '__init__':
+                            und.append('%s line %d: self._connection re-bound outside __init__ (pending writes of the old connection are not modelled)'
+                                       % (mname, n.lineno))
+            if (mname != '__init__' and isinstance(n, ast.Call) and isinstance(n.func, ast.Attribute) and is_self_attr(n.func.value, '_engine')
+                    and n.func.attr in ('connect', 'begin', 'execute', 'raw_connection', 'execution_options')):
+                und.append('%s line %d: self._engine.%s(...) opens/uses another connection whose statements are not modelled' % (mname, n.lineno, n.func.attr))
+    if not sites:
+        und.append('no assignment to self._connection found in %s' % SQL_CLASS)
+    return und, sites
+
+
+def engine_obligations(chk, sql_cls):
+    t0 = time.time()
+    fq = 'create_engine / connect / execution_options call sites reaching %s' % SQL_CLASS
+    sc = EngineScan()
+    try:
+        n_sites = sc.scan()
+        cund, csites = connection_scan(sql_cls)
+    except Exception as e:      # a scan failure is never a violation
+        chk.obligation('C05.engine.transactional', fq, 'frame', report.UNDECIDED, time.time() - t0,
+                       detail='engine configuration scan failed: %r' % (e,))
+        return
+    for a in sc.assumptions:
+        chk.assume('engine configuration: ' + a)
+    chk.assume('SQLAlchemy >= 2.0 semantics: a Connection without an AUTOCOMMIT isolation level begins a transaction at its first statement '
+               '(autobegin) and keeps it until commit()/rollback(); the database URL string carries no DBAPI isolation option')
+    detail = {'sites_inspected': sc.sites, 'engine_construction_sites': n_sites, 'assumptions': sc.assumptions}
+    dt = time.time() - t0
+    if sc.violations:
+        rep, replay = confirm_rpc_crash('DeleteStudy,UpdateMetadata')
+        chk.obligation('C05.engine.transactional', fq, 'frame', report.VIOLATED, dt / 2,
+                       detail={'violations': sc.violations, **detail},
+                       model='\n'.join(sc.violations) + '\nconsequence: the statements of one datastore method are separate transactions; a crash between '
+                             'two of them tears delete_study (study row / trial rows / operation rows) and update_metadata (study row / one row per trial); '
+                             'the bracket obligations of layer 1 hold only under this obligation.',
+                       replay={'replay': replay}, reproduced=rep)
+    elif sc.undecided:
+        chk.obligation('C05.engine.transactional', fq, 'frame', report.UNDECIDED, dt / 2, detail='; '.join(sc.undecided)[:800])
+    elif n_sites == 0:
+        chk.obligation('C05.engine.transactional', fq, 'frame', report.UNDECIDED, dt / 2,
+                       detail='no create_engine call site found in the repository: how the engine of %s is configured is not visible' % SQL_CLASS)
+    else:
+        chk.obligation('C05.engine.transactional', fq, 'frame', report.PROVED, dt / 2, detail=detail)
+    if cund:
+        chk.obligation('C05.engine.single_connection', '%s (all methods)' % SQL_CLASS, 'frame', report.UNDECIDED, dt / 2, detail='; '.join(cund)[:800])
+    else:
+        chk.obligation('C05.engine.single_connection', '%s (all methods)' % SQL_CLASS, 'frame', report.PROVED, dt / 2,
+                       detail={'bindings': csites, 'statement': 'self._connection is bound once, in __init__, to <engine>.connect(); no other '
+                                                                'method opens or uses another connection of self._engine'})
 
 
 # =========================================================================================== main
@@ -790,6 +1128,11 @@ def main(tier):
             h[0].kill()
         return chk.finish(min_obligations=80)
     hierarchy = build_hierarchy()
+
+    # ------------------------------------------------------------------ layer 0: the connection is transactional
+    chk.function(SVC_MOD, '%s.__init__' % SVC_CLASS)
+    chk.function(SQL_MOD, '%s.__init__' % SQL_CLASS)
+    engine_obligations(chk, sql_cls)
 
     # ------------------------------------------------------------------ layer 1
     kf = KindFlow(sql_mod, sql_cls)
@@ -861,8 +1204,10 @@ def main(tier):
             if known and f is not None:
                 doc, msg = wait_driver(pending.pop('f7')) if 'f7' in pending else (None, 'witness replay not started')
                 if doc is None or not doc.get('reproduced'):
-                    chk.error(oname + '.finding_witness', 'recorded finding did not reproduce on the real code (stale entry?): %s %s'
-                              % (msg, json.dumps(doc)[:400] if doc else ''))
+                    # a stale entry suppresses nothing: plain note, and the statically found exits are reported like any other
+                    chk.note('known finding for %s is stale (its witness did not reproduce on the real code: %s); it suppresses nothing.'
+                             % (oname, str(msg)[:200]))
+                    known, other = [], viol
                 else:
                     chk.obligation(oname, fq, 'paths', report.KNOWN, dt / 3, finding=f['what'],
                                    detail={'witness_replay': doc['results'], 'violating_outcomes_in_witness_class': len(known),
@@ -936,8 +1281,10 @@ def main(tier):
             elif f15 is not None and not und:
                 doc, msg = wait_driver(pending.pop('f15')) if 'f15' in pending else (None, 'witness replay not started')
                 if doc is None or not doc.get('reproduced'):
-                    chk.error(oname + '.finding_witness', 'recorded finding did not reproduce on the real code (stale entry?): %s %s'
-                              % (msg, json.dumps(doc)[:400] if doc else ''))
+                    chk.note('known finding for %s is stale (its witness did not reproduce on the real code: %s); it suppresses nothing.'
+                             % (oname, str(msg)[:200]))
+                    decide(oname, opened, 'a not-done suggestion operation is committed before the remaining writes: a crash there wedges the client',
+                           confirm=None, n_parts=6)
                 else:
                     chk.obligation(oname, fq, 'paths', report.KNOWN, dt / 6, finding=f15['what'],
                                    detail={'witness_replay': {k: doc[k] for k in ('child_exit', 'same_client_ops', 'other_client_op', 'study_readable_after_restart')},
